@@ -1,7 +1,315 @@
-import Netpol.Model.Engine
-import Netpol.Model.Diff
-import Netpol.Model.Sort
+import Netpol.Proofs.Structure
+
+/-! C19: conflicting policy sets are always rejected, conflict-free ones are accepted.
+
+Part A restates the decision-tree theorems of `Netpol.Model.Sort` about
+`sortAdminNetpolsByPriority` (any correct comparison sort, run with the Go `less` callback that
+sets an error flag, reports every priority conflict). Part B is about the model of
+`addObjectsByKind` (`Engine.build` = fold of `Engine.insertObject`, then `Engine.sortANPs`, then
+`Engine.resolveMissingNamespaces`) and about `Engine.podOwnersMap`. Part C is the converse (no
+false alarm).
+
+Vocabulary from `Netpol.Structure`: `npNs p` is the namespace after defaulting (`""` ↦
+`"default"`), `npKey p = (npNs p, p.name)`; `npsOf/anpsOf/banpsOf/podsOf objs` are the objects of
+one kind in input order. Positions are given as `objs[i]? = some o`. -/
 namespace Netpol.Properties.C19
-open Netpol
+open Netpol Netpol.Engine Netpol.Structure
+
+/-! ### A. the sort, as a decision tree -/
+
+open Netpol.Sort in
+/-- for every length and every correct comparison sort: a tie or an invalid priority is reported -/
+theorem priority_conflict_rejected {n : Nat} (alg : Alg n) (hc : Correct alg) (items : Fin n → Item)
+    (hbad : (∃ i j, i ≠ j ∧ (items i).prio = (items j).prio) ∨ (∃ i, (items i).valid = false)) :
+    sortCheck items alg = true := Netpol.Sort.priority_conflict_rejected alg hc items hbad
+
+open Netpol.Sort in
+theorem bad_input_detected {n : Nat} (alg : Alg n) (hc : Correct alg) (hn : 2 ≤ n)
+    (items : Fin n → Item)
+    (hbad : (∃ i j, i ≠ j ∧ (items i).prio = (items j).prio) ∨ (∃ i, (items i).valid = false)) :
+    runGo items alg = true := Netpol.Sort.bad_input_detected alg hc hn items hbad
+
+open Netpol.Sort in
+theorem tie_is_compared {n : Nat} (alg : Alg n) (hc : Correct alg) (k : Fin n → Nat)
+    (i j : Fin n) (hij : i ≠ j) (hk : k i = k j) :
+    ∃ p ∈ (run (lessOf k) alg).2, p.1 ≠ p.2 ∧ k p.1 = k p.2 :=
+  Netpol.Sort.tie_is_compared alg hc k i j hij hk
+
+open Netpol.Sort in
+theorem every_index_compared {n : Nat} (alg : Alg n) (hc : Correct alg) (hn : 2 ≤ n)
+    (k : Fin n → Nat) (i : Fin n) : ∃ p ∈ (run (lessOf k) alg).2, p.1 = i ∨ p.2 = i :=
+  Netpol.Sort.every_index_compared alg hc hn k i
+
+open Netpol.Sort in
+theorem clean_input_accepted {n : Nat} (alg : Alg n) (hs : NoSelfCmp alg) (items : Fin n → Item)
+    (hinj : ∀ i j, i ≠ j → (items i).prio ≠ (items j).prio)
+    (hvalid : ∀ x, (items x).valid = true) : runGo items alg = false :=
+  Netpol.Sort.clean_input_accepted alg hs items hinj hvalid
+
+/-! ### B. the insertion fold -/
+
+/-- a failure of the insertion fold is a failure of `build`, with the same error -/
+theorem build_error_of_fold {objs : List Obj} {err : Err}
+    (h : objs.foldlM insertObject ({} : Engine) = .error err) : Engine.build objs = .error err := by
+  rw [build_eq, h]
+
+/-- two NetworkPolicy objects with the same (namespace after defaulting, name), anywhere in the
+input: the insertion fold fails (with the error of the first failing `insertObject`) -/
+theorem dup_netpol_rejected_fold (objs : List Obj) {i j : Nat} {p q : NetPol}
+    (hi : objs[i]? = some (.np p)) (hj : objs[j]? = some (.np q)) (hij : i < j)
+    (hns : npNs p = npNs q) (hname : p.name = q.name) :
+    ∃ err, objs.foldlM insertObject ({} : Engine) = .error err := by
+  obtain ⟨l1, l2, l3, rfl⟩ := split_two hi hj hij
+  exact foldlM_conflict (f := insertObject) (fun e => hasNetpol e (npNs p) p.name) (.np p) (.np q)
+    (fun _ _ _ hs h => hasNetpol_mono hs h) (fun _ _ h => hasNetpol_set h)
+    (fun _ hs => hasNetpol_trig (by rw [← hns, ← hname]; exact hs)) l1 l2 l3 _
+
+theorem dup_netpol_rejected (objs : List Obj) {i j : Nat} {p q : NetPol}
+    (hi : objs[i]? = some (.np p)) (hj : objs[j]? = some (.np q)) (hij : i < j)
+    (hns : npNs p = npNs q) (hname : p.name = q.name) :
+    ∃ err, Engine.build objs = .error err :=
+  Structure.build_error_of_fold (dup_netpol_rejected_fold objs hi hj hij hns hname)
+
+/-- when the duplicate is met, the error is `dupNetpol`: the step itself, on any engine that has
+already taken the first policy -/
+theorem dup_netpol_error {e : Engine} {p : NetPol} (h : hasNetpol e (npNs p) p.name) :
+    e.insertObject (.np p) = .error .dupNetpol := insertObject_np_dup h
+
+/-- whatever makes the insertion fold fail, the error is one of the conflict classes
+`conflictErrs = [dupNetpol, dupANP, banpExists, banpName, badPod]` (an earlier conflict in the
+list may pre-empt the one a theorem below speaks about) -/
+theorem fold_error_class {objs : List Obj} {err : Err}
+    (h : objs.foldlM insertObject ({} : Engine) = .error err) : err ∈ conflictErrs :=
+  Structure.fold_error_class rfl h
+
+/-- the errors of `build` are the conflict classes and `anpPriority` -/
+theorem build_error_class {objs : List Obj} {err : Err} (h : Engine.build objs = .error err) :
+    err ∈ conflictErrs ∨ err = .anpPriority := by
+  rw [build_eq] at h
+  cases hf : objs.foldlM insertObject ({} : Engine) with
+  | error err' =>
+    rw [hf] at h; cases h
+    exact Or.inl (fold_error_class hf)
+  | ok e =>
+    rw [hf] at h
+    simp only at h
+    right
+    cases hs : e.sortANPs with
+    | error err' => rw [hs] at h; cases h; exact sortANPs_error hs
+    | ok e' => rw [hs] at h; cases h
+
+/-- the same AdminNetworkPolicy name twice -/
+theorem dup_anp_rejected_fold (objs : List Obj) {i j : Nat} {a b : ANP}
+    (hi : objs[i]? = some (.anp a)) (hj : objs[j]? = some (.anp b)) (hij : i < j)
+    (hname : a.name = b.name) :
+    ∃ err, objs.foldlM insertObject ({} : Engine) = .error err := by
+  obtain ⟨l1, l2, l3, rfl⟩ := split_two hi hj hij
+  exact foldlM_conflict (f := insertObject) (fun e => a.name ∈ e.anpNames) (.anp a) (.anp b)
+    (fun _ _ _ hs h => anpName_mono hs h) (fun _ _ h => anpName_set h)
+    (fun _ hs => anpName_trig (by rw [← hname]; exact hs)) l1 l2 l3 _
+
+theorem dup_anp_rejected (objs : List Obj) {i j : Nat} {a b : ANP}
+    (hi : objs[i]? = some (.anp a)) (hj : objs[j]? = some (.anp b)) (hij : i < j)
+    (hname : a.name = b.name) : ∃ err, Engine.build objs = .error err :=
+  Structure.build_error_of_fold (dup_anp_rejected_fold objs hi hj hij hname)
+
+/-- two BaselineAdminNetworkPolicy objects -/
+theorem two_banp_rejected_fold (objs : List Obj) {i j : Nat} {a b : BANP}
+    (hi : objs[i]? = some (.banp a)) (hj : objs[j]? = some (.banp b)) (hij : i < j) :
+    ∃ err, objs.foldlM insertObject ({} : Engine) = .error err := by
+  obtain ⟨l1, l2, l3, rfl⟩ := split_two hi hj hij
+  exact foldlM_conflict (f := insertObject) (fun e => e.banp.isSome = true) (.banp a) (.banp b)
+    (fun _ _ _ hs h => banp_mono hs h) (fun _ _ h => banp_set h)
+    (fun _ hs => banp_trig hs) l1 l2 l3 _
+
+theorem two_banp_rejected (objs : List Obj) {i j : Nat} {a b : BANP}
+    (hi : objs[i]? = some (.banp a)) (hj : objs[j]? = some (.banp b)) (hij : i < j) :
+    ∃ err, Engine.build objs = .error err :=
+  Structure.build_error_of_fold (two_banp_rejected_fold objs hi hj hij)
+
+/-- a BaselineAdminNetworkPolicy that is not named "default" -/
+theorem banp_name_rejected_fold (objs : List Obj) {b : BANP} (hb : .banp b ∈ objs)
+    (hname : b.name ≠ "default") : ∃ err, objs.foldlM insertObject ({} : Engine) = .error err :=
+  foldlM_error_of_mem hb (fun _ => banp_name_trig hname) _
+
+theorem banp_name_rejected (objs : List Obj) {b : BANP} (hb : .banp b ∈ objs)
+    (hname : b.name ≠ "default") : ∃ err, Engine.build objs = .error err :=
+  Structure.build_error_of_fold (banp_name_rejected_fold objs hb hname)
+
+/-- a Pod object without host IP -/
+theorem bad_pod_rejected (objs : List Obj) {p : Pod} (hp : .pod p ∈ objs) (hip : p.hostIP = "") :
+    ∃ err, Engine.build objs = .error err :=
+  Structure.build_error_of_fold (foldlM_error_of_mem hp (fun _ => badPod_trig hip) _)
+
+/-- no step of the fold removes an ANP: every ANP object of the input is in the ANP list of the
+folded engine (more precisely that list is a permutation of the ANP objects, `fold_anps_perm`) -/
+theorem fold_anps_mem {objs : List Obj} {e : Engine}
+    (h : objs.foldlM insertObject ({} : Engine) = .ok e) {a : ANP} (ha : .anp a ∈ objs) :
+    a ∈ e.anps := Structure.fold_anps_mem h ha
+
+theorem fold_anps_perm {objs : List Obj} {e : Engine}
+    (h : objs.foldlM insertObject ({} : Engine) = .ok e) : e.anps.Perm (anpsOf objs) := by
+  simpa using Structure.fold_anps_perm h
+
+/-- `sortANPs` (the model-level abstraction of the sort, justified by part A) rejects two ANPs
+with the same priority and any priority outside 0..1000 -/
+theorem priority_conflict_rejected_model (e : Engine)
+    (h : (∃ (i j : Nat) (a b : ANP), i < j ∧ e.anps[i]? = some a ∧ e.anps[j]? = some b ∧ a.prio = b.prio) ∨
+      (∃ a ∈ e.anps, ¬ (0 ≤ a.prio ∧ a.prio ≤ 1000))) :
+    e.sortANPs = .error .anpPriority := by
+  rcases h with ⟨i, j, a, b, hij, hi, hj, hp⟩ | ⟨a, ha, hv⟩
+  · apply sortANPs_error_of_dup
+    obtain ⟨l1, l2, l3, h3⟩ := split_two hi hj hij
+    rw [h3]
+    simp only [List.map_append, List.map_cons, hp]
+    exact not_nodup_of_split
+  · apply sortANPs_error_of_invalid ha
+    unfold ANP.validPriority
+    simp only [ge_iff_le, decide_eq_false_iff_not]
+    exact hv
+
+/-- hence `build` rejects an input with two ANP objects of the same priority … -/
+theorem same_priority_rejected (objs : List Obj) {i j : Nat} {a b : ANP}
+    (hi : objs[i]? = some (.anp a)) (hj : objs[j]? = some (.anp b)) (hij : i < j)
+    (hprio : a.prio = b.prio) : ∃ err, Engine.build objs = .error err := by
+  rw [build_eq]
+  cases hfold : objs.foldlM insertObject ({} : Engine) with
+  | error err => exact ⟨err, rfl⟩
+  | ok e =>
+    have hperm := fold_anps_perm hfold
+    have hdup : ¬ (e.anps.map (·.prio)).Nodup := by
+      rw [(hperm.map _).nodup_iff]
+      obtain ⟨l1, l2, l3, h3⟩ := split_two hi hj hij
+      rw [h3]
+      simp only [anpsOf_append, anpsOf_cons_anp, List.map_append, List.map_cons, hprio]
+      exact not_nodup_of_split
+    exact ⟨.anpPriority, by simp only [sortANPs_error_of_dup hdup]⟩
+
+/-- … and an input with an ANP object whose priority is outside 0..1000 -/
+theorem invalid_priority_rejected (objs : List Obj) {a : ANP} (ha : .anp a ∈ objs)
+    (hprio : ¬ (0 ≤ a.prio ∧ a.prio ≤ 1000)) : ∃ err, Engine.build objs = .error err := by
+  rw [build_eq]
+  cases hfold : objs.foldlM insertObject ({} : Engine) with
+  | error err => exact ⟨err, rfl⟩
+  | ok e =>
+    have := priority_conflict_rejected_model e (Or.inr ⟨a, fold_anps_mem hfold ha, hprio⟩)
+    exact ⟨.anpPriority, by simp only [this]⟩
+
+/-- if the fold succeeds, the error is exactly `anpPriority` -/
+theorem priority_conflict_error (objs : List Obj) {e : Engine}
+    (hfold : objs.foldlM insertObject ({} : Engine) = .ok e)
+    (h : (∃ (i j : Nat) (a b : ANP), i < j ∧ objs[i]? = some (.anp a) ∧ objs[j]? = some (.anp b) ∧ a.prio = b.prio) ∨
+      (∃ a : ANP, .anp a ∈ objs ∧ ¬ (0 ≤ a.prio ∧ a.prio ≤ 1000))) :
+    Engine.build objs = .error .anpPriority := by
+  rw [build_eq, hfold]
+  have : e.sortANPs = .error .anpPriority := by
+    rcases h with ⟨i, j, a, b, hij, hi, hj, hp⟩ | ⟨a, ha, hv⟩
+    · apply sortANPs_error_of_dup
+      rw [((fold_anps_perm hfold).map _).nodup_iff]
+      obtain ⟨l1, l2, l3, h3⟩ := split_two hi hj hij
+      rw [h3]
+      simp only [anpsOf_append, anpsOf_cons_anp, List.map_append, List.map_cons, hp]
+      exact not_nodup_of_split
+    · exact priority_conflict_rejected_model e (Or.inr ⟨a, fold_anps_mem hfold ha, hv⟩)
+  simp only [this]
+
+/-! ### owner labels -/
+
+/-- `labelsEq` is symmetric and transitive (it is reflexive only on label lists without
+conflicting duplicate keys; reflexivity is not needed) -/
+theorem labelsEq_symm (a b : Labels) : labelsEq a b = labelsEq b a := Structure.labelsEq_symm a b
+
+theorem labelsEq_trans {a b c : Labels} (hab : labelsEq a b = true) (hbc : labelsEq b c = true) :
+    labelsEq a c = true := Structure.labelsEq_trans hab hbc
+
+/-- two pods of one owner (same namespace, same non-empty owner name) whose labels differ, at any
+two distinct positions of the pod list — in any order, with any pods before, between and after,
+including other pods of the same owner —: `ownerLabels` is raised -/
+theorem owner_labels_rejected (e : Engine) {i j : Nat} {p q : Pod} (hij : i ≠ j)
+    (hi : e.pods[i]? = some p) (hj : e.pods[j]? = some q)
+    (hns : p.ns = q.ns) (hown : p.ownerName = q.ownerName) (hne : p.ownerName ≠ "")
+    (hl : labelsEq p.labels q.labels = false) : e.podOwnersMap = .error .ownerLabels := by
+  unfold podOwnersMap
+  rcases Nat.lt_or_gt_of_ne hij with h | h
+  · obtain ⟨l1, l2, l3, h3⟩ := split_two hi hj h
+    rw [h3]
+    exact go_owner_labels l1 l2 l3 hns hown hne hl
+  · obtain ⟨l1, l2, l3, h3⟩ := split_two hj hi h
+    rw [h3]
+    exact go_owner_labels l1 l2 l3 hns.symm hown.symm (hown ▸ hne) (by rw [Structure.labelsEq_symm]; exact hl)
+
+/-- `ownerLabels` is the only error of `podOwnersMap` -/
+theorem podOwnersMap_error {e : Engine} {err : Err} (h : e.podOwnersMap = .error err) :
+    err = .ownerLabels := go_error h
+
+/-! ### C. no false alarm -/
+
+/-- distinct NetworkPolicy keys, distinct ANP names, at most one BANP and named "default", no Pod
+object without host IP, ANP priorities distinct and within 0..1000: the input is accepted -/
+theorem conflict_free_accepted (objs : List Obj)
+    (hnp : ((npsOf objs).map npKey).Nodup)
+    (hanp : ((anpsOf objs).map (·.name)).Nodup)
+    (hbanp : (banpsOf objs).length ≤ 1)
+    (hbn : ∀ b ∈ banpsOf objs, b.name = "default")
+    (hpod : ∀ p ∈ podsOf objs, p.hostIP ≠ "")
+    (hprio : ((anpsOf objs).map (·.prio)).Nodup)
+    (hvalid : ∀ a ∈ anpsOf objs, 0 ≤ a.prio ∧ a.prio ≤ 1000) :
+    ∃ e, Engine.build objs = .ok e := by
+  obtain ⟨e, he⟩ := fold_ok_of_conflict_free objs {} rfl (by simpa using hnp) (by simpa using hanp)
+    (by simpa using hbanp) hbn hpod
+  have hperm := fold_anps_perm he
+  obtain ⟨e', he'⟩ := sortANPs_ok_of (e := e)
+    (fun a ha => by
+      have := hvalid a (hperm.mem_iff.mp ha)
+      unfold ANP.validPriority
+      simp only [ge_iff_le, decide_eq_true_eq]
+      exact this)
+    (by rw [(hperm.map _).nodup_iff]; exact hprio)
+  exact ⟨e'.resolveMissingNamespaces, by rw [build_eq, he]; simp only [he']⟩
+
+/-! ### non-vacuity -/
+
+def sel0 : Selector := ⟨[], []⟩
+def np1 : NetPol := ⟨"", "p", sel0, [], [], []⟩
+def np2 : NetPol := ⟨"default", "p", sel0, [], [], []⟩
+def np3 : NetPol := ⟨"other", "p", sel0, [], [], []⟩
+def anp1 : ANP := ⟨"a", 5, .nss sel0, [], []⟩
+def anp2 : ANP := ⟨"b", 5, .nss sel0, [], []⟩
+def anp3 : ANP := ⟨"c", 1001, .nss sel0, [], []⟩
+def anp4 : ANP := ⟨"a", 7, .nss sel0, [], []⟩
+def banp1 : BANP := ⟨"default", .nss sel0, [], []⟩
+def banp2 : BANP := ⟨"base", .nss sel0, [], []⟩
+def nsX : NsObj := ⟨"x", []⟩
+def podX : Pod := { ns := "x", name := "p1", labels := [("a", "1")], ports := [], ownerKind := "ReplicaSet", ownerName := "rs" }
+def podY : Pod := { ns := "x", name := "p2", labels := [("a", "2")], ports := [], ownerKind := "ReplicaSet", ownerName := "rs" }
+def podZ : Pod := { ns := "x", name := "p0", labels := [("a", "1")], ports := [], ownerKind := "ReplicaSet", ownerName := "rs" }
+
+def errOf {α} : Except Err α → Option Err
+  | .error e => some e
+  | .ok _ => none
+
+/-- "" and "default" are the same namespace; the duplicate is found across other objects -/
+example : errOf (Engine.build [.np np1, .ns nsX, .anp anp1, .np np2]) = some .dupNetpol := by decide
+example : npNs np1 = npNs np2 ∧ np1.name = np2.name := by decide
+example : errOf (Engine.build [.np np1, .ns nsX, .np np3]) = none := by decide
+example : errOf (Engine.build [.anp anp1, .np np1, .anp anp4]) = some .dupANP := by decide
+example : errOf (Engine.build [.banp banp1, .np np1, .banp banp1]) = some .banpExists := by decide
+example : errOf (Engine.build [.np np1, .banp banp2]) = some .banpName := by decide
+example : errOf (Engine.build [.anp anp1, .np np1, .anp anp2]) = some .anpPriority := by decide
+example : errOf (Engine.build [.np np1, .anp anp3]) = some .anpPriority := by decide
+example : errOf (Engine.build [.anp anp1, .np np1, .banp banp1, .np np3, .ns nsX]) = none := by
+  decide
+/-- the hypotheses of `conflict_free_accepted` hold for that last input -/
+example : let objs := [.anp anp1, .np np1, .banp banp1, .np np3, .ns nsX]
+    ((npsOf objs).map npKey).Nodup ∧ ((anpsOf objs).map (·.name)).Nodup ∧
+    (banpsOf objs).length ≤ 1 ∧ (∀ b ∈ banpsOf objs, b.name = "default") ∧
+    (∀ p ∈ podsOf objs, p.hostIP ≠ "") ∧ ((anpsOf objs).map (·.prio)).Nodup ∧
+    (∀ a ∈ anpsOf objs, 0 ≤ a.prio ∧ a.prio ≤ 1000) := by decide
+/-- owner labels: the differing pair is found in either order and behind an agreeing pod -/
+example : errOf (podOwnersMap { pods := [podX, podY] }) = some .ownerLabels := by decide
+example : errOf (podOwnersMap { pods := [podY, podX] }) = some .ownerLabels := by decide
+example : errOf (podOwnersMap { pods := [podZ, podX, podY] }) = some .ownerLabels := by decide
+example : errOf (podOwnersMap { pods := [podZ, podX] }) = none := by decide
+example : labelsEq podX.labels podY.labels = false := by decide
 
 end Netpol.Properties.C19
